@@ -680,20 +680,22 @@ Proof. vm_compute. repeat split. Qed.
    after k source lines / k bytecodes (a sweep over k plus random positions inside the whole loop); another thread then
    looks EVERY dispatched name up through the manager module.
    digits: tenalg, does the loop of the CURRENT source delete the attribute before setting it? (ast; no since /repo commit
-   34d4068), number of observations, then per stop position: 0 every name found / 1 some name raised AttributeError.
+   34d4068), number of observations (two digits, high first), then per stop position: 0 every name found / 1 some name raised AttributeError.
    Model (rsched / rprog): without the delattr no look-up can miss (C17_micro_rebind_no_window); with it there is a
    window, which the sweep must find *)
 Definition agree_rebind (l : list nat) : bool :=
   match l with
-  | _ :: wd :: n :: obs =>
+  | _ :: wd :: nhi :: nlo :: obs =>
+      let n := nhi * 64 + nlo in
       (length obs =? n) && negb (n =? 0) && forallb (fun o => o <? 2) obs &&
       Bool.eqb (existsb (fun o => o =? 1) obs) (dec_bool wd)
   | _ => false
   end.
 
 Example rebind_example :
-  agree_rebind [0;1;4;0;0;1;0] = true /\ agree_rebind [0;0;4;0;0;0;0] = true /\
-  agree_rebind [0;0;4;0;1;0;0] = false /\ agree_rebind [0;1;3;0;0;0] = false.
+  agree_rebind [0;1;0;4;0;0;1;0] = true /\ agree_rebind [0;0;0;4;0;0;0;0] = true /\
+  agree_rebind [0;0;0;4;0;1;0;0] = false /\ agree_rebind [0;1;0;3;0;0;0] = false /\
+  agree_rebind ([0;0;1;2] ++ repeat 0 66) = true.
 Proof. vm_compute. repeat split. Qed.
 
 (* ---- register_backend_method (leading digit 10): histories of selections, registrations and calls of ONE dispatched
